@@ -6,3 +6,4 @@ pub mod c16;
 pub mod c17;
 pub mod c20;
 pub mod mockio;
+pub mod svc;
